@@ -114,10 +114,10 @@ class Str:
 class MapV:
     """HashMap / HashSet / BTreeMap model: association list in insertion order.
     entries: list of (key value, Cell(value)).  Invariant: keys pairwise distinct under pc."""
-    __slots__ = ('entries', 'kind')
+    __slots__ = ('entries', 'kind', '_order')
 
     def __init__(self, entries=None, kind='map'):
-        self.entries = entries if entries is not None else []; self.kind = kind
+        self.entries = entries if entries is not None else []; self.kind = kind; self._order = None
 
     def __repr__(self): return f"Map{[(k, c.v) for k, c in self.entries]}"
 
